@@ -34,6 +34,8 @@ prop(
          "per-request nonce). Non-trivial: at some step >=2 callers of one question were unfinished while a request of it was in flight, and at some "
          "step >=2 distinct questions were in flight together. stress: 3-12 callers x 2-6 waves of the same questions (fresh names per wave), "
          "drawn per-request delays 0-3 ms, GOMAXPROCS in {1,4,16}, optionally every 4th/7th non-range request fails; same counters plus "
+         "in half of the schedules cache maintenance runs concurrently (FailoverGroup.CleanCache() looping in its own goroutine, 0-400 unrelated "
+         "answers cached beforehand) while every caller asks all - by then answered - questions 1-4 more times; "
          "'every key seen exactly once' when nothing fails, the same per-window answer check, and additionally windows of one expression that have "
          "whole slices in common ([0,5h-5m], [0,5h30], [2h,6h], 2/3/5-slice windows from 00:00). Non-trivial (stress): >=2 distinct questions were in flight together. "
          "race: the stress property re-run in a child process of the race-enabled test binary; a DATA RACE report naming internal/promapi is a failure.",
